@@ -3393,6 +3393,17 @@ impl G {
       params.push(("s".into(), Ty::Int, sr));
       cx.push("s", &Ty::Int, sr);
     }
+    // a second induction variable with its own start and stride (its multiples are candidates for strength reduction)
+    // (strength reduction only fires for loops with a literal bound: there the second variable is the rule)
+    let second_iv: Option<(i64, i64)> = if !near_limit && self.rng.chance(if !n_param { 4 } else if loops_prof { 2 } else { 1 }, 5) {
+      let cj = (1 + self.rng.below(4) as i64) * if self.rng.chance(1, 3) { -1 } else { 1 };
+      let mj = *self.rng.pick(&[2i64, 3, 5, 7, -2, -3]);
+      params.push(("j".into(), Ty::Int, (-100, 100)));
+      cx.push("j", &Ty::Int, (-100 - 4 * maxtrips, 100 + 4 * maxtrips));
+      Some((cj, mj))
+    } else {
+      None
+    };
     // accumulator
     let acc_kind = match self.rng.below(if self.prof == Profile::Strings { 12 } else { 10 }) {
       0..=3 => "sum",
@@ -3523,8 +3534,11 @@ impl G {
         self.feat("loop-acc-int");
         // make the derived induction variable / the allocated closure / struct observable
         let mut t = format!("acc + {}", par(&e));
-        if dv && self.rng.chance(2, 3) {
+        if dv && second_iv.is_none() && self.rng.chance(2, 3) {
           t = format!("({t}) + dv");
+        } else if let Some((_, mj)) = second_iv {
+          t = format!("({t}) + (j * {})", lit(mj));
+          self.feat("loop-second-iv-derived");
         }
         if bcx.lookup("cl").is_some() && self.rng.chance(2, 3) {
           t = format!("({t}) + cl(i % 100)");
@@ -3590,6 +3604,10 @@ impl G {
     }
     if s_idx.is_some() {
       rec_args.push("s".into());
+    }
+    if let Some((cj, _)) = second_iv {
+      rec_args.push(if cj < 0 { format!("j - {}", -cj) } else { format!("j + {cj}") });
+      self.feat("loop-second-iv");
     }
     if has_acc {
       rec_args.push(new_acc);
